@@ -717,7 +717,16 @@ func (c *Client) open(path string, pflags uint32) (*File, error) {
 		if err != nil {
 			return nil, err
 		}
-		return &File{c: c, path: path, handle: handle}, nil
+		f := &File{c: c, path: path, handle: handle}
+		if pflags&sshFxfAppend != 0 {
+			// The servers of this package serve every WRITE at the offset it carries
+			// (they cannot use O_APPEND together with WriteAt), so the writes of a File
+			// that was opened for appending have to start at the end of the file.
+			if fs, err := c.fstat(handle); err == nil {
+				f.offset = int64(fs.Size)
+			}
+		}
+		return f, nil
 	case sshFxpStatus:
 		return nil, statusOnlyError(id, data)
 	default:
